@@ -619,7 +619,7 @@ func digestEvents(out *sink, p pset, kp keypair, r *rand.Rand) {
 		}
 		cases = append(cases, dcase{composeDigest(p, f, r.Uint64(), r.Intn(leafMax+1), n%2 == 0), fmt.Sprintf("fors=%d in every tree", u)})
 	}
-	fullA, fullB := r.Intn(len(leaves)), len(leaves)-1 // quick, f sets: two leaf cases are recomputed in full
+	fullA := r.Intn(len(leaves)) // quick, f sets: one leaf case is recomputed in full (thorough: all)
 	for n, c := range cases {
 		rr := vt.Bytes(r, p.N)
 		var sig []byte
@@ -628,9 +628,10 @@ func digestEvents(out *sink, p pset, kp keypair, r *rand.Rand) {
 		// how exactly the reference compares: "full" (whole signature recomputed), "fors" (R || SIG_FORS recomputed, rest cheap parts), "cheap"
 		mode := "cheap"
 		if p.Fast {
-			mode = "fors"
-			if vt.Thorough() || n == fullA || n == fullB {
+			if vt.Thorough() || n == fullA {
 				mode = "full"
+			} else if strings.HasPrefix(c.what, "fors=") {
+				mode = "fors"
 			}
 		} else if strings.HasPrefix(c.what, "fors=") && (vt.Thorough() || p.N == 16) && (n == len(cases)-1 || n == len(cases)-len(forsVals)) {
 			mode = "fors" // all FORS indices 0 / maximal
